@@ -396,7 +396,7 @@ pub fn par_main_with(engine: &str, cases: &[ParCase]) {
         h.bytes(engine.as_bytes());
         h.bytes(profile.as_bytes());
         let rs = mix(&[seed, 0xE3, h.0, idx]);
-        let mut cfg = make_config(if profile == "C17" { "C17" } else { "C09" }, rs, thorough, 40);
+        let mut cfg = make_config(if profile == "C17" { "C17" } else { "C09" }, rs, thorough, 40, false);
         cfg.repeats = 1;
         if cfg.fault.is_some() {
             cfg.fault = Some(("paritem".into(), cfg.fault.as_ref().unwrap().1));
